@@ -1,4 +1,434 @@
-pub fn run(_args: &[String]) -> i32 {
-    eprintln!("geometry: not built yet");
-    2
+//! C20: executes the records printed by spec/Geometry.tla against the real geometry helpers and
+//! the area-trigger tables of the three expansions.
+//!
+//! stdin: one JSON record per line, `t` selects the sub-kind (all expectations come from the model):
+//!   box   {s, c, dims, yaw:[a,b,h], turns, p, samemap, geo, inside}   lattice units of 1/s yard
+//!   ball  {s, c, r, p, samemap, geo, inside}
+//!   dist  {s, from, to, lo, hi, lo2, hi2, within:[{r, expect}]}
+//!   trig  {exp, id, shape, dims10, os, off:[u,v,w] (box frame, 1/os yard), map, samemap, expect}
+//!   unk   {exp, id:"decimal", near, expect:"not_found"}
+//!   exp   {exp, count, maxid, minid}
+//! args:   [cap] - how many findings of each class are printed (default 10; all are counted)
+//! stdout: JSON lines {"finding":..} (first `cap` of each class) and a final {"summary":..}
+//!
+//! Trusted base - the only arithmetic done here:
+//!   * integer / scale -> f32 (exact: scales are powers of two or the value is a table decimal);
+//!   * yaw of a model box = atan2(b, a) brought to [0, 2 pi) plus `turns` whole turns, for the
+//!     rational pair (cos, sin) = (a/h, b/h) chosen by the model;
+//!   * for table triggers: world = centre + R(+yaw) * offset, in f64, with the trigger's own centre
+//!     and yaw as returned by the public API - the inverse of the definition's frame map.
+//! Everything else is calling the public API and comparing with the record.
+
+use serde_json::{json, Value};
+use std::collections::{BTreeMap, BTreeSet, HashMap};
+use std::io::BufRead;
+use std::panic::{catch_unwind, AssertUnwindSafe};
+use wow_world_base::geometry::{distance_2d, distance_between, is_within_distance, is_within_square};
+use wow_world_base::shared::vector2d_vanilla_tbc_wrath::Vector2d;
+use wow_world_base::shared::vector3d_vanilla_tbc_wrath::Vector3d;
+
+/// Expansion-neutral view of one table trigger, as returned by the public API.
+#[derive(Clone, Debug)]
+pub struct Shape {
+    square: bool,
+    map: String,
+    c: [f32; 3],
+    dims: Vec<f32>,
+    yaw: f32,
+}
+
+pub enum Lookup {
+    NotFound,
+    Found(Shape),
+}
+
+macro_rules! expansion {
+    ($m:ident, $exp:ident) => {
+        mod $m {
+            use super::{Lookup, Shape};
+            use wow_world_base::$exp::position::Position;
+            use wow_world_base::$exp::trigger::{verify_trigger, AreaTrigger, TriggerResult};
+            use wow_world_base::$exp::Map;
+
+            fn shape_of(a: &AreaTrigger) -> Shape {
+                match *a {
+                    AreaTrigger::Circle { position, radius } => Shape {
+                        square: false,
+                        map: format!("{:?}", position.map),
+                        c: [position.x, position.y, position.z],
+                        dims: vec![radius],
+                        yaw: 0.0,
+                    },
+                    AreaTrigger::Square { position, length, width, height, yaw } => Shape {
+                        square: true,
+                        map: format!("{:?}", position.map),
+                        c: [position.x, position.y, position.z],
+                        dims: vec![length, width, height],
+                        yaw,
+                    },
+                }
+            }
+
+            pub fn map_by_name(name: &str) -> Option<Map> {
+                Map::variants().into_iter().find(|m| format!("{:?}", m) == name)
+            }
+
+            fn two_maps() -> (Map, Map) {
+                let v = Map::variants();
+                (v[0], v[1])
+            }
+
+            /// Enumerates a trigger through the public API only.
+            pub fn lookup(id: u32) -> Lookup {
+                let (a, _) = two_maps();
+                match verify_trigger(Position::new(a, 0.0, 0.0, 0.0, 0.0), id) {
+                    TriggerResult::NotFound => Lookup::NotFound,
+                    TriggerResult::NotInsideTrigger(t) | TriggerResult::Success(t) => Lookup::Found(shape_of(&t.0)),
+                }
+            }
+
+            /// (`contains`, outcome of `verify_trigger`, whether the returned entry is the one looked up)
+            pub fn probe(id: u32, map: &str, p: [f32; 3]) -> Result<(Option<bool>, &'static str, bool), String> {
+                let m = map_by_name(map).ok_or_else(|| format!("no map {map}"))?;
+                let pos = Position::new(m, p[0], p[1], p[2], 0.0);
+                let (a, _) = two_maps();
+                let own = match verify_trigger(Position::new(a, 0.0, 0.0, 0.0, 0.0), id) {
+                    TriggerResult::NotFound => None,
+                    TriggerResult::NotInsideTrigger(t) | TriggerResult::Success(t) => Some(t.0),
+                };
+                let contains = own.map(|t| t.contains(pos));
+                Ok(match verify_trigger(pos, id) {
+                    TriggerResult::NotFound => (contains, "not_found", own.is_none()),
+                    TriggerResult::NotInsideTrigger(t) => (contains, "outside", Some(t.0) == own),
+                    TriggerResult::Success(t) => (contains, "success", Some(t.0) == own),
+                })
+            }
+
+            pub fn square_contains(c: [f32; 3], dims: [f32; 3], yaw: f32, p: [f32; 3], samemap: bool) -> bool {
+                let (a, b) = two_maps();
+                let t = AreaTrigger::Square {
+                    position: Position::new(a, c[0], c[1], c[2], 0.0),
+                    length: dims[0],
+                    width: dims[1],
+                    height: dims[2],
+                    yaw,
+                };
+                t.contains(Position::new(if samemap { a } else { b }, p[0], p[1], p[2], 0.0))
+            }
+
+            pub fn circle_contains(c: [f32; 3], r: f32, p: [f32; 3], samemap: bool) -> bool {
+                let (a, b) = two_maps();
+                let t = AreaTrigger::Circle { position: Position::new(a, c[0], c[1], c[2], 0.0), radius: r };
+                t.contains(Position::new(if samemap { a } else { b }, p[0], p[1], p[2], 0.0))
+            }
+        }
+    };
+}
+
+expansion!(vanilla, vanilla);
+expansion!(tbc, tbc);
+expansion!(wrath, wrath);
+
+const EXPS: [&str; 3] = ["vanilla", "tbc", "wrath"];
+
+fn lookup(exp: &str, id: u32) -> Lookup {
+    match exp {
+        "vanilla" => vanilla::lookup(id),
+        "tbc" => tbc::lookup(id),
+        _ => wrath::lookup(id),
+    }
+}
+
+fn probe(exp: &str, id: u32, map: &str, p: [f32; 3]) -> Result<(Option<bool>, &'static str, bool), String> {
+    match exp {
+        "vanilla" => vanilla::probe(id, map, p),
+        "tbc" => tbc::probe(id, map, p),
+        _ => wrath::probe(id, map, p),
+    }
+}
+
+fn square_contains(exp: &str, c: [f32; 3], d: [f32; 3], yaw: f32, p: [f32; 3], same: bool) -> bool {
+    match exp {
+        "vanilla" => vanilla::square_contains(c, d, yaw, p, same),
+        "tbc" => tbc::square_contains(c, d, yaw, p, same),
+        _ => wrath::square_contains(c, d, yaw, p, same),
+    }
+}
+
+fn circle_contains(exp: &str, c: [f32; 3], r: f32, p: [f32; 3], same: bool) -> bool {
+    match exp {
+        "vanilla" => vanilla::circle_contains(c, r, p, same),
+        "tbc" => tbc::circle_contains(c, r, p, same),
+        _ => wrath::circle_contains(c, r, p, same),
+    }
+}
+
+fn ints(v: &Value) -> Vec<i64> {
+    v.as_array().expect("array").iter().map(|x| x.as_i64().expect("int")).collect()
+}
+
+fn scaled3(v: &Value, s: i64) -> [f32; 3] {
+    let i = ints(v);
+    [i[0] as f32 / s as f32, i[1] as f32 / s as f32, i[2] as f32 / s as f32]
+}
+
+fn v3(p: [f32; 3]) -> Vector3d {
+    Vector3d { x: p[0], y: p[1], z: p[2] }
+}
+
+fn v2(p: [f32; 3]) -> Vector2d {
+    Vector2d { x: p[0], y: p[1] }
+}
+
+/// Runs code under test; a panic is an observation.
+fn guarded<T>(f: impl FnOnce() -> T) -> Result<T, String> {
+    catch_unwind(AssertUnwindSafe(f)).map_err(|e| {
+        if let Some(s) = e.downcast_ref::<String>() {
+            format!("panic: {s}")
+        } else if let Some(s) = e.downcast_ref::<&str>() {
+            format!("panic: {s}")
+        } else {
+            "panic".to_string()
+        }
+    })
+}
+
+struct Out {
+    cap: u64,
+    counts: BTreeMap<String, u64>,
+    kinds: BTreeMap<String, u64>,
+    calls: BTreeMap<String, u64>,
+}
+
+impl Out {
+    fn call(&mut self, api: &str) {
+        *self.calls.entry(api.to_string()).or_insert(0) += 1;
+    }
+    fn report(&mut self, class: &str, api: &str, expected: Value, observed: Value, rec: &Value) {
+        let n = self.counts.entry(class.to_string()).or_insert(0);
+        *n += 1;
+        if *n <= self.cap {
+            println!(
+                "{}",
+                json!({"finding": "mismatch", "class": class, "api": api, "expected": expected,
+                       "observed": observed, "record": rec})
+            );
+        }
+    }
+    /// compares one boolean verdict of the code under test with the model's
+    fn verdict(&mut self, class: &str, api: &str, expected: bool, f: impl FnOnce() -> bool, rec: &Value) {
+        self.call(api);
+        match guarded(f) {
+            Ok(b) if b == expected => {}
+            Ok(b) => self.report(class, api, json!(expected), json!(b), rec),
+            Err(p) => self.report(class, api, json!(expected), json!(p), rec),
+        }
+    }
+}
+
+pub fn run(args: &[String]) -> i32 {
+    let cap = args.first().and_then(|s| s.parse().ok()).unwrap_or(10);
+    let mut out = Out { cap, counts: BTreeMap::new(), kinds: BTreeMap::new(), calls: BTreeMap::new() };
+    let mut cache: HashMap<(String, u32), Option<Shape>> = HashMap::new();
+    let mut probed: BTreeMap<String, BTreeSet<u32>> = BTreeMap::new();
+    let mut found_by_exp: BTreeMap<String, BTreeSet<u32>> = BTreeMap::new();
+    let mut records = 0u64;
+    let two_pi = 2.0 * std::f64::consts::PI;
+
+    for line in std::io::stdin().lock().lines() {
+        let line = line.unwrap();
+        if line.trim().is_empty() {
+            continue;
+        }
+        let rec: Value = serde_json::from_str(&line).expect("bad record");
+        records += 1;
+        let t = rec["t"].as_str().unwrap_or("?").to_string();
+        *out.kinds.entry(t.clone()).or_insert(0) += 1;
+        match t.as_str() {
+            "box" => {
+                let s = rec["s"].as_i64().unwrap();
+                let c = scaled3(&rec["c"], s);
+                let d = scaled3(&rec["dims"], s);
+                let p = scaled3(&rec["p"], s);
+                let y = ints(&rec["yaw"]);
+                let mut ang = (y[1] as f64).atan2(y[0] as f64);
+                if ang < 0.0 {
+                    ang += two_pi;
+                }
+                ang += two_pi * rec["turns"].as_i64().unwrap() as f64;
+                let yaw = ang as f32;
+                let geo = rec["geo"].as_bool().unwrap();
+                let inside = rec["inside"].as_bool().unwrap();
+                let same = rec["samemap"].as_bool().unwrap();
+                out.verdict("box_mismatch", "geometry::is_within_square", geo,
+                            || is_within_square(v3(p), v3(c), d[0], d[1], d[2], yaw), &rec);
+                for e in EXPS {
+                    out.verdict("box_mismatch", &format!("{e}::trigger::AreaTrigger::contains"), inside,
+                                || square_contains(e, c, d, yaw, p, same), &rec);
+                }
+            }
+            "ball" => {
+                let s = rec["s"].as_i64().unwrap();
+                let c = scaled3(&rec["c"], s);
+                let p = scaled3(&rec["p"], s);
+                let r = rec["r"].as_i64().unwrap() as f32 / s as f32;
+                let geo = rec["geo"].as_bool().unwrap();
+                let inside = rec["inside"].as_bool().unwrap();
+                let same = rec["samemap"].as_bool().unwrap();
+                out.verdict("ball_mismatch", "geometry::is_within_distance", geo,
+                            || is_within_distance(v3(c), v3(p), r), &rec);
+                out.verdict("ball_mismatch", "geometry::is_within_distance", geo,
+                            || is_within_distance(v3(p), v3(c), r), &rec);
+                for e in EXPS {
+                    out.verdict("ball_mismatch", &format!("{e}::trigger::AreaTrigger::contains"), inside,
+                                || circle_contains(e, c, r, p, same), &rec);
+                }
+            }
+            "dist" => {
+                let s = rec["s"].as_i64().unwrap();
+                let a = scaled3(&rec["from"], s);
+                let b = scaled3(&rec["to"], s);
+                let mut bracket = |api: &str, lo: &Value, hi: &Value, f: &dyn Fn() -> (f32, f32)| {
+                    out.call(api);
+                    let (lo, hi) = (lo.as_i64().unwrap() as f64, hi.as_i64().unwrap() as f64);
+                    match guarded(f) {
+                        Ok((d, back)) => {
+                            let u = d as f64 * s as f64;
+                            if !(lo <= u && u <= hi) || d.to_bits() != back.to_bits() {
+                                out.report("distance_mismatch", api, json!([lo, hi]),
+                                           json!({"scaled": u, "there": d, "back": back}), &rec);
+                            }
+                        }
+                        Err(p) => out.report("distance_mismatch", api, json!([lo, hi]), json!(p), &rec),
+                    }
+                };
+                bracket("geometry::distance_between", &rec["lo"], &rec["hi"],
+                        &|| (distance_between(v3(a), v3(b)), distance_between(v3(b), v3(a))));
+                bracket("geometry::distance_2d", &rec["lo2"], &rec["hi2"],
+                        &|| (distance_2d(v2(a), v2(b)), distance_2d(v2(b), v2(a))));
+                for w in rec["within"].as_array().unwrap() {
+                    let r = w["r"].as_i64().unwrap() as f32 / s as f32;
+                    out.verdict("distance_mismatch", "geometry::is_within_distance", w["expect"].as_bool().unwrap(),
+                                || is_within_distance(v3(a), v3(b), r), &rec);
+                }
+            }
+            "trig" => {
+                let exp = rec["exp"].as_str().unwrap().to_string();
+                let id = rec["id"].as_u64().unwrap() as u32;
+                probed.entry(exp.clone()).or_default().insert(id);
+                let shape = cache
+                    .entry((exp.clone(), id))
+                    .or_insert_with(|| match guarded(|| lookup(&exp, id)) {
+                        Ok(Lookup::Found(s)) => Some(s),
+                        _ => None,
+                    })
+                    .clone();
+                let Some(sh) = shape else {
+                    out.report("table_mismatch", "verify_trigger", json!("trigger of the table text is found"),
+                               json!("not_found or panic"), &rec);
+                    continue;
+                };
+                // the row the model read is the row the API serves
+                let want_square = rec["shape"].as_str() == Some("square");
+                let dims10 = ints(&rec["dims10"]);
+                let same_dims = dims10.len() == sh.dims.len()
+                    && dims10.iter().zip(&sh.dims).all(|(a, b)| (*a as f32 / 10.0).to_bits() == b.to_bits());
+                if want_square != sh.square || !same_dims {
+                    out.report("table_mismatch", "verify_trigger", json!({"shape": rec["shape"], "dims10": dims10}),
+                               json!({"square": sh.square, "dims": sh.dims}), &rec);
+                    continue;
+                }
+                let os = rec["os"].as_i64().unwrap() as f64;
+                let off: Vec<f64> = ints(&rec["off"]).iter().map(|x| *x as f64 / os).collect();
+                // trusted base: place the box-frame offset in the world (rotate by +yaw, translate)
+                let (sn, cs) = if sh.square { (sh.yaw as f64).sin_cos() } else { (0.0, 1.0) };
+                let p = [
+                    (sh.c[0] as f64 + off[0] * cs - off[1] * sn) as f32,
+                    (sh.c[1] as f64 + off[0] * sn + off[1] * cs) as f32,
+                    (sh.c[2] as f64 + off[2]) as f32,
+                ];
+                let expect = rec["expect"].as_str().unwrap();
+                let map = rec["map"].as_str().unwrap();
+                if rec["samemap"].as_bool().unwrap() != (map == sh.map) {
+                    out.report("table_mismatch", "verify_trigger", json!({"map": map, "samemap": rec["samemap"]}),
+                               json!({"map": sh.map}), &rec);
+                    continue;
+                }
+                out.call(&format!("{exp}::trigger::verify_trigger"));
+                out.call(&format!("{exp}::trigger::AreaTrigger::contains"));
+                match guarded(|| probe(&exp, id, map, p)) {
+                    Ok(Ok((contains, outcome, same_entry))) => {
+                        if contains != Some(expect == "success") || outcome != expect || !same_entry {
+                            out.report("trigger_mismatch", &format!("{exp}::trigger::verify_trigger"),
+                                       json!({"contains": expect == "success", "verify_trigger": expect}),
+                                       json!({"contains": contains, "verify_trigger": outcome,
+                                              "returned_entry_is_the_trigger": same_entry,
+                                              "world": p, "centre": sh.c, "yaw": sh.yaw, "sizes": sh.dims}),
+                                       &rec);
+                        }
+                    }
+                    Ok(Err(e)) => out.report("table_mismatch", "Map", json!(map), json!(e), &rec),
+                    Err(pn) => out.report("trigger_mismatch", &format!("{exp}::trigger::verify_trigger"),
+                                          json!(expect), json!(pn), &rec),
+                }
+            }
+            "unk" => {
+                let exp = rec["exp"].as_str().unwrap().to_string();
+                let id: u32 = rec["id"].as_str().unwrap().parse().expect("u32 id");
+                let near = rec["near"].as_u64().unwrap() as u32;
+                let (map, c) = match guarded(|| lookup(&exp, near)) {
+                    Ok(Lookup::Found(s)) => (s.map, s.c),
+                    _ => {
+                        out.report("table_mismatch", "verify_trigger", json!("near is found"), json!("not found"), &rec);
+                        continue;
+                    }
+                };
+                out.call(&format!("{exp}::trigger::verify_trigger"));
+                match guarded(|| probe(&exp, id, &map, c)) {
+                    Ok(Ok((None, "not_found", true))) => {}
+                    other => out.report("trigger_mismatch", &format!("{exp}::trigger::verify_trigger"),
+                                        json!("not_found"), json!(format!("{other:?}")), &rec),
+                }
+            }
+            "exp" => {
+                let exp = rec["exp"].as_str().unwrap().to_string();
+                let maxid = rec["maxid"].as_u64().unwrap() as u32;
+                let mut found = BTreeSet::new();
+                for id in 0..=maxid + 4096 {
+                    out.call(&format!("{exp}::trigger::verify_trigger"));
+                    if let Ok(Lookup::Found(_)) = guarded(|| lookup(&exp, id)) {
+                        found.insert(id);
+                    }
+                }
+                let obs = json!({"count": found.len(), "minid": found.iter().next(), "maxid": found.iter().next_back()});
+                let want = json!({"count": rec["count"], "minid": rec["minid"], "maxid": rec["maxid"]});
+                if obs != want {
+                    out.report("table_mismatch", &format!("{exp}::trigger::verify_trigger"), want, obs, &rec);
+                }
+                found_by_exp.insert(exp, found);
+            }
+            _ => {
+                eprintln!("geometry: unknown record kind {t}");
+                return 2;
+            }
+        }
+    }
+    // every trigger the API serves was probed by the model, and vice versa
+    for (exp, found) in &found_by_exp {
+        let p = probed.get(exp).cloned().unwrap_or_default();
+        if &p != found {
+            let only_api: Vec<_> = found.difference(&p).take(10).collect();
+            let only_model: Vec<_> = p.difference(found).take(10).collect();
+            out.report("table_mismatch", &format!("{exp}::trigger::verify_trigger"),
+                       json!("ids served by the API = ids probed by the model"),
+                       json!({"only_api": only_api, "only_model": only_model}), &json!({"t": "exp", "exp": exp}));
+        }
+    }
+    let triggers_probed: BTreeMap<_, _> = probed.iter().map(|(k, v)| (k.clone(), v.len())).collect();
+    println!(
+        "{}",
+        json!({"summary": {"records": records, "records_by_kind": out.kinds, "api_calls": out.calls,
+                           "triggers_probed": triggers_probed, "finding_counts": out.counts}})
+    );
+    0
 }
